@@ -91,6 +91,8 @@ pub enum Pull {
     Absent,
     /// pull returned Err(code)
     Err(i16),
+    /// typed pull (`next_data::<u8>` / `next_optional_data::<u8>`) returned this value
+    Val(i64),
 }
 
 #[derive(Clone, Copy, PartialEq, Eq, Debug)]
@@ -134,7 +136,8 @@ pub struct Plan {
     pub fail_after_items: usize,
     /// call `finish()` result propagation: true = `?` on finish (the documented usage)
     pub propagate_finish: bool,
-    /// convert the first pulled (required) token to u8 and propagate the conversion error
+    /// pull through the typed API: `next_data::<u8>()` for required and
+    /// `next_optional_data::<u8>()` for optional parameters, propagating conversion errors
     pub typed_u8: bool,
 }
 
@@ -518,6 +521,34 @@ impl H {
     fn pulls(&self, dev: &mut RigDev, params: &mut Parameters) -> Result<()> {
         let plan = dev.plan[self.0 as usize];
         let mut runaway = false;
+        if plan.typed_u8 {
+            for _ in 0..plan.req {
+                let r: Result<u8> = params.next_data();
+                let pull = match &r {
+                    Ok(v) => Pull::Val(*v as i64),
+                    Err(e) => Pull::Err(e.get_code()),
+                };
+                if dev.pulls.try_push(PullRec { handler: self.0, required: true, pull }).is_err() {
+                    dev.log_overflow = true;
+                }
+                r?;
+            }
+            for _ in 0..plan.opt {
+                let r: Result<Option<u8>> = params.next_optional_data();
+                let pull = match &r {
+                    Ok(Some(v)) => Pull::Val(*v as i64),
+                    Ok(None) => Pull::Absent,
+                    Err(e) => Pull::Err(e.get_code()),
+                };
+                if dev.pulls.try_push(PullRec { handler: self.0, required: false, pull }).is_err() {
+                    dev.log_overflow = true;
+                }
+                if r?.is_none() {
+                    break;
+                }
+            }
+            return Ok(());
+        }
         for _ in 0..plan.req {
             let r = params.next_token();
             let pull = match &r {
@@ -536,9 +567,6 @@ impl H {
                 dev.log_overflow = true;
             }
             let t = r?;
-            if plan.typed_u8 {
-                let _v: u8 = u8::try_from(t)?;
-            }
             if plan.convert {
                 let (_, internal, _) = convert_all(t, &mut runaway);
                 dev.internal_error |= internal;
